@@ -127,6 +127,8 @@ var c12BurstShapes = []int{0, 13, 17, 18, 20, 22} // valid-unary, open-bidi, bod
 
 func c12(tier string) []*explore.Scenario {
 	var out []*explore.Scenario
+	// every short sequence of handler-side operations (repeated SendHeader / SetHeader / SetTrailer included): the call is answered
+	out = append(out, handlerSeqs("C12", tier)...)
 	maxLen := 3
 	if tier == "thorough" {
 		maxLen = 4
